@@ -368,8 +368,10 @@ class Block(Entity):
         # convert the data before anything is created, so that data which
         # do not fit the columns leave no half-built frame behind
         if data is not None and shape > 0:
-            if type(data[0]) != np.void:
-                data = list(map(tuple, data))
+            # rows of a structured array are taken apart like all other rows:
+            # NumPy casts one structured array to another without looking at
+            # the values (300 becomes 44 in a uint8 column)
+            data = list(map(tuple, data))
             data = np.ascontiguousarray(data, dtype=col_dtype)
 
         try:
